@@ -5,7 +5,7 @@ from fractions import Fraction
 import core
 import gen
 
-PROOF_MODULES = ["UnytProofs.C02", "UnytProofs.C02Num"]
+PROOF_MODULES = ["UnytProofs.C02", "UnytProofs.C02Num", "UnytProofs.C02Tree"]
 
 
 def snippet(body):
@@ -227,6 +227,114 @@ def numeric_literals(chk, tier, drv):
               and (not co.is_Rational or Fraction(r[6]) == Fraction(int(co.p), int(co.q))))
         if not ok:
             chk.disagree("c02.unitstr", f"{s}: model ({core.b2f(r[1])}, {r[3]}, coeff {r[6]}) implementation ({u.base_value}, {gen.dim_vec(u.dimensions)}, coeff {co})")
+
+
+# ---------------------------------------------------------------------------------------------
+# nested expressions as trees (numbers, symbols, products, rational powers; quotient = power -1, sqrt = power 1/2)
+
+
+def nested_trees(chk, tier, drv):
+    import sympy
+    from unyt import Unit
+    from unyt._unit_lookup_table import default_unit_symbol_lut as LUT, unit_prefixes as PRE, inv_name_alternatives as INV
+
+    rng = chk.rng
+    bases = [k for k in LUT if LUT[k][2] == 0 and LUT[k][0] > 0 and k.isidentifier() and INV.get(k, k) == k]
+    prefixable = [k for k in bases if LUT[k][4]]
+    pre_keys = list(PRE)
+
+    def leaf_sym():
+        if rng.random() < 0.4:
+            p, b = rng.choice(pre_keys), rng.choice(prefixable)
+            name = p + b
+            if INV.get(name, name) != name or name in LUT:
+                return leaf_sym()
+            return ("S " + name, name, True, PRE[p][0] * LUT[b][0], LUT[b][1])
+        b = rng.choice(bases)
+        return ("S " + b, b, True, LUT[b][0], LUT[b][1])
+
+    def leaf_num():
+        if rng.random() < 0.4:
+            pq = rng.choice([(3, 2), (1, 4), (2, 3), (7, 5), (1, 3)])
+            return (f"N {pq[0]}/{pq[1]}", f"({pq[0]}/{pq[1]})", True, pq[0] / pq[1], sympy.Integer(1))
+        N, k = rng.choice([2, 3, 4, 5, 9, 15, 25, 125]), rng.choice([0, 0, 1, 2, -1])
+        lit, _tags = spell_decimal(rng, N, k)
+        v = Fraction(N) / Fraction(10) ** k
+        return (f"N {v.numerator}/{v.denominator}" if v.denominator != 1 else f"N {v.numerator}", lit, True, float(v), sympy.Integer(1))
+
+    def tree(depth, top=False):
+        """(wire, text, is_atom, scale, dim)"""
+        r = rng.random() if not top else 0.25 + 0.75 * rng.random()
+        if depth == 0 or r < 0.25:
+            return leaf_sym()
+        if r < 0.65:
+            a = tree(depth - 1) if rng.random() < 0.75 else leaf_num()
+            b = tree(depth - 1)
+            if rng.random() < 0.3:      # a quotient: a * b**-1
+                ta = a[1] if a[2] else f"({a[1]})"
+                tb = b[1] if b[2] else f"({b[1]})"
+                return (f"M {a[0]} P -1 {b[0]}", f"{ta}/{tb}", False, a[3] / b[3], a[4] / b[4])
+            ta = a[1] if (a[2] or rng.random() < 0.3 and "/" not in a[1]) else f"({a[1]})"
+            tb = b[1] if b[2] else f"({b[1]})"
+            return (f"M {a[0]} {b[0]}", f"{ta}*{tb}" if rng.random() < 0.8 else f"{ta} * {tb}", False, a[3] * b[3], a[4] * b[4])
+        a = tree(depth - 1)
+        e = rng.choice(gen.EXPONENTS)
+        es = sympy.Rational(e.numerator, e.denominator)
+        if e == Fraction(1, 2) and rng.random() < 0.6:
+            text = f"sqrt({a[1]})"
+        else:
+            ta = a[1] if (a[2] and "**" not in a[1]) else f"({a[1]})"
+            if e.denominator == 1:
+                text = f"{ta}**{e.numerator}" if e > 0 else f"{ta}**({e.numerator})"
+            elif e.denominator == 2 and rng.random() < 0.4:
+                lit, _t = spell_decimal(rng, abs(e.numerator) * 5, 1)
+                text = f"{ta}**{'-' if e < 0 else ''}{lit}"
+            else:
+                text = f"{ta}**({e.numerator}/{e.denominator})"
+        return (f"P {e.numerator}/{e.denominator} {a[0]}" if e.denominator != 1 else f"P {e.numerator} {a[0]}", text, False, a[3] ** float(e), a[4] ** es)
+
+    ntree = 400 if tier == "quick" else 8000
+    lines, expect = [], []
+    for _ in range(ntree):
+        try:
+            w, text, _atom, scale, dim = tree(rng.randint(1, 3), top=True)
+        except (OverflowError, ZeroDivisionError):
+            chk.count("tree-range-skipped")
+            continue
+        if not (math.isfinite(scale) and 1e-200 < abs(scale) < 1e200):
+            chk.count("tree-range-skipped")
+            continue
+        chk.count("tree:nodes-" + str(min(12, len([t for t in w.split(" ") if t in ("N", "S", "M", "P")]))))
+        try:
+            u = Unit(text)
+        except Exception as e:  # noqa: BLE001
+            chk.fail("tree-raise", f"valid nested expression {text!r} raised {core.exc_name(e)}", {"python": snippet(f"Unit({text!r})\n")})
+            continue
+        chk.case(("tree", text), {"nested": text} if len(chk.samples) < 16 else None)
+        if not (math.isclose(u.base_value, scale, rel_tol=1e-10) and u.dimensions == dim):
+            chk.fail("tree-scale", f"Unit({text!r}): scale {u.base_value!r} dimension {u.dimensions}, the constituents imply {scale!r}, {dim}",
+                     {"python": snippet(f"u = Unit({text!r})\nassert math.isclose(u.base_value, {scale!r}, rel_tol=1e-10), (u.base_value, {scale!r})\n")})
+        lines.append("c02.tree\t" + w)
+        expect.append((text, u))
+    try:
+        rep = drv.ask(lines)
+    except Exception as e:  # noqa: BLE001
+        rep = []
+        chk.disagree("driver", repr(e))
+    for r, (text, u) in zip(rep, expect):
+        chk.count("model:tree")
+        if r[0] != "ok" or len(r) < 8 or r[6] == "none":
+            chk.disagree("c02.tree", f"{text}: model {r} implementation scale {u.base_value}")
+            continue
+        dv = gen.dim_vec(u.dimensions)
+        ok = (core.close(core.b2f(r[1]), u.base_value, 1e-10) and r[3] == dv          # Unit(build tree)
+              and core.close(core.b2f(r[6]), u.base_value, 1e-10) and r[7] == dv)      # sem tree
+        try:
+            ok = ok and r[5] == gen.expr_wire(u.expr)[1]
+        except ValueError:
+            pass
+        if not ok:
+            chk.disagree("c02.tree", f"{text}: model build ({core.b2f(r[1])}, {r[3]}, {r[5]}) sem ({core.b2f(r[6])}, {r[7]}) implementation ({u.base_value}, {dv}, {u.expr})")
 
 
 def run(tier, seed):
@@ -511,6 +619,7 @@ def run(tier, seed):
     # ------------------------------------------------------------------ numeric literals (coefficients, exponents)
     try:
         numeric_literals(chk, tier, core.Model("drv_c02"))
+        nested_trees(chk, tier, core.Model("drv_c02"))
     except RuntimeError as e:  # driver not built
         chk.disagree("driver", repr(e))
 
